@@ -72,6 +72,22 @@ impl Copy for JulianDay {}
 #[verifier::external_body]
 fn verif_msg() -> String { unimplemented!() }
 
+// C13: a lunar month lists exactly its days. DCNT(y, m) is the length the month table gives month (y, m)
+// (L-NEW: 29 or 30); LunarDay::from_ymd accepts exactly 1 <= day <= DCNT (leaf, c02_lunar_side).
+pub uninterp spec fn DCNT(y: int, mwl: int) -> int;
+#[verifier::external_body]
+pub struct LunarDay { _p: u8 }
+impl LunarDay {
+    pub uninterp spec fn y(&self) -> int;
+    pub uninterp spec fn mwl(&self) -> int;
+    pub uninterp spec fn d(&self) -> int;
+    #[verifier::external_body]
+    fn from_ymd(year: isize, month: isize, day: usize) -> (r: Self)
+        requires 1 <= day <= DCNT(year as int, month as int),
+        ensures r.y() == year, r.mwl() == month, r.d() == day,
+    { unimplemented!() }
+}
+
 //@STRUCT file=src/tyme/lunar.rs struct=LunarYear derive="Clone, Copy"
 //@STRUCT file=src/tyme/lunar.rs struct=LunarMonth derive="Clone, Copy"
 
@@ -170,6 +186,21 @@ impl LunarMonth {
     //@EXTRACT file=src/tyme/lunar.rs impl="impl LunarMonth" fn=get_year
     //@sig
         ensures r == self.year.year,
+    //@END
+    //@EXTRACT file=src/tyme/lunar.rs impl="impl LunarMonth" fn=get_day_count
+    //@sig
+        ensures r == self.day_count,
+    //@END
+    //@EXTRACT file=src/tyme/lunar.rs impl="impl LunarMonth" fn=get_days loops=1
+    //@sig
+        requires 1 <= self.month <= 12, self.day_count == DCNT(self.year.year as int, self.mwl()), self.day_count <= 31,
+        ensures r@.len() == self.day_count,
+                forall|i: int| 0 <= i < r@.len() ==> (#[trigger] r@[i]).y() == self.year.year && r@[i].mwl() == self.mwl() && r@[i].d() == i + 1,
+    //@loop 0
+        invariant
+            size == self.day_count, size == DCNT(y as int, m as int), size <= 31, y == self.year.year, m == self.mwl(),
+            l@.len() == i,
+            forall|j: int| 0 <= j < l@.len() ==> (#[trigger] l@[j]).y() == self.year.year && l@[j].mwl() == self.mwl() && l@[j].d() == j + 1,
     //@END
 
     //@EXTRACT file=src/tyme/lunar.rs impl="impl Tyme for LunarMonth" fn=next loops=1
